@@ -8,8 +8,8 @@ Local Open Scope nat_scope.
 
 Ltac rst := cbn [write read1 read2 slots wpc rpc nw n1 n2 wseq rseq recv
                  set_slots set_slot set_counts set_wpc set_rpc add_recv
-                 mark payload slept rlock tk parked1 woken1 bc wt wparked wwoken fillseq
-                 sl_lists sl_fill sl_mark sl_writer sl_rlock] in *.
+                 mark payload pm c_one c_multi c_resps slept rlock tk parked1 woken1 bc wt wparked wwoken fillseq
+                 sl_lists sl_fill sl_mark sl_clear sl_writer sl_rlock] in *.
 Ltac slot_cases s' s E := destruct (Nat.eq_dec s' s) as [E|E]; [subst s'; rewrite ?upd_same|rewrite ?upd_other by exact E].
 
 Definition abs (st : state) : qstate :=
